@@ -187,13 +187,17 @@ def double_stop(nw=2):
     }}
 
 
-def ask_consumed():
+def ask_consumed(fail_until=0):
     """a returns an InputRequiredEvent that another step of the workflow accepts (an approval step): it is still
-    published to the stream exactly once."""
-    return {"timeout": None, "steps": {
+    published to the stream exactly once -- also when the accepting step fails and is retried with the event as its input."""
+    p = {"timeout": None, "steps": {
         "a": {"accepts": ["Start"], "nw": 1, "body": [G, {"op": "ret", "ty": "Ask"}]},
         "h": {"accepts": ["Ask"], "nw": 1, "returns": ["Stop"], "body": [G, {"op": "none"}]},      # an audit step: the run stays live
     }}
+    if fail_until:
+        p["steps"]["h"]["retry"] = {"max": fail_until + 1, "wait": ["fixed", 0]}
+        p["steps"]["h"]["body"] = [G, {"op": "fail", "until": fail_until}, {"op": "none"}]
+    return p
 
 
 def two_waits_one_step(timeout2=None):
@@ -423,6 +427,7 @@ def family(name, quick=True):
     elif name == "ask":
         out.append(("ask", ask(), [("Resp", None)]))
         out.append(("ask_consumed", ask_consumed(), []))
+        out.append(("ask_consumed_retried", ask_consumed(2), []))
     elif name == "wait":
         out.append(("waiter(no timeout)", waiter(None), [("Resp", None), ("A", None)]))
         out.append(("waiter(timeout=5)", waiter(5), [("Resp", None)]))
